@@ -137,7 +137,7 @@ Proof.
 Qed.
 
 Section Inv.
-  Variable key : Z -> Z -> Z.
+  Variable key : Z -> Z -> Z -> Z -> Z.
   Variable tie_up : Z -> bool.
   Variables R M : ext.
   Variables xc yc : list (option Z).
@@ -269,7 +269,7 @@ Section Inv.
 End Inv.
 
 Section Global.
-  Variable key : Z -> Z -> Z.
+  Variable key : Z -> Z -> Z -> Z -> Z.
   Variable tie_up : Z -> bool.
   Variables R M : ext.
   Variables xc yc : list (option Z).
@@ -416,7 +416,7 @@ End Global.
 
 (* ---------- target cells end with distance 0 ---------- *)
 Section Zero.
-  Variable key : Z -> Z -> Z.
+  Variable key : Z -> Z -> Z -> Z -> Z.
   Variable tie_up : Z -> bool.
   Variables R M : ext.
   Variables xc yc : list (option Z).
@@ -470,7 +470,7 @@ End Zero.
 
 (* ---------- the whole algorithm ---------- *)
 Section Whole.
-  Variable key : Z -> Z -> Z.
+  Variable key : Z -> Z -> Z -> Z -> Z.
   Variable tie_up : Z -> bool.
   Variables R M : ext.
   Variables xc yc : list (option Z).
